@@ -976,3 +976,165 @@ def _is_mapping_expr(ctx: Ctx, fi: FunctionInfo, e: ast.expr) -> bool:
 
 
 RULES = {'X1': X1, 'X2': X2, 'X3a': X3a, 'X3b': X3b, 'X4': X4, 'X5': X5, 'X5r': X5r, 'X6': X6, 'X8': X8}
+
+
+# ====================================================================== X3c
+def semantic_validators(ctx: Ctx) -> Dict[str, Dict[str, object]]:
+    """AST classes whose construction can raise a non-type error (HplSanityError / ValueError): the functions that run
+    on construction (validators, __attrs_post_init__, methods they call on self), the error classes and the fields read"""
+    def build():
+        out: Dict[str, Dict[str, object]] = {}
+        for c in ctx.model.concrete_ast_classes():
+            funcs: List[FunctionInfo] = []
+            for k in c.mro():
+                for vs in k.validators.values():
+                    funcs.extend(k.methods[v] for v in vs)
+                if '__attrs_post_init__' in k.methods:
+                    funcs.append(k.methods['__attrs_post_init__'])
+            seen = {f.key for f in funcs}
+            todo = list(funcs)
+            while todo:
+                f = todo.pop()
+                for n in ast.walk(f.node):
+                    if isinstance(n, ast.Call) and isinstance(n.func, ast.Attribute) and isinstance(n.func.value, ast.Name) and n.func.value.id == 'self':
+                        m = c.resolve(n.func.attr)
+                        if m is not None and m.key not in seen:
+                            seen.add(m.key)
+                            funcs.append(m)
+                            todo.append(m)
+            classes: Set[str] = set()
+            reads: Set[str] = set()
+            for f in funcs:
+                for n in ast.walk(f.node):
+                    if isinstance(n, ast.Raise):
+                        classes.add(raise_class(ctx, f, n))
+                    if isinstance(n, ast.Attribute) and isinstance(n.value, ast.Name) and n.value.id == 'self' and c.field(n.attr) is not None:
+                        reads.add(n.attr)
+                # the validated value itself is the field the validator is attached to
+                for k in c.mro():
+                    for fld, vs in k.validators.items():
+                        if f.name in vs:
+                            reads.add(fld)
+            sem = {x for x in classes if x in ('HplSanityError', 'ValueError')}
+            if sem:
+                out[c.name] = {'errors': sorted(sem), 'reads': sorted(reads), 'functions': [f.qualname for f in funcs]}
+        return out
+    return ctx.memo('semantic_validators', build)
+
+
+def X3c(ctx: Ctx) -> RuleResult:
+    r = RuleResult('X3c', 're-validation exposure: every copy-with-changes / construction in rewrite.py of a class with semantic validators (sanity, presence, hygiene) either leaves the fields those validators read untouched or is justified by a checked monotonicity fact')
+    from .rules_rewrite import rewrite_eval, Shapes, canon, IH_FUNCS, _fname
+    from .terms import Attr, BoundMethod, Call, Comp, Const, New, Op, Sym, Term, walk, norm_guards, EnumMember
+    from .util import call_name, call_recv, outcome_terms
+    sem = semantic_validators(ctx)
+    if 'HplProperty' not in sem or 'HplQuantifier' not in sem:
+        raise AnalysisError('X3c', f'semantic validator classes not found: {sorted(sem)}')
+    fields_of = {c: {f.name for f in ctx.model.cls(c).fields()} for c in sem}
+    ev = rewrite_eval(ctx)
+    mod = ctx.model.module('hpl.rewrite', 'X3c')
+    n = 0
+    for fi in mod.functions.values():
+        try:
+            outs = ev.run(fi)
+        except AnalysisError:
+            continue
+        seen_keys = set()
+        for o in outs:
+            sh = Shapes()
+            for g, pol in o.guards:
+                sh.read(g, pol)
+            for a in o.asserts:
+                sh.read(a, True)
+            terms = outcome_terms(o) + list((o.env or {}).values())
+            comps = [x for t in terms for x in walk(t) if isinstance(x, Comp)]
+            for t in terms:
+                for x in walk(t):
+                    site = None
+                    if isinstance(x, Call) and call_name(x) == 'but' and x.kwargs and not x.args:
+                        ks = {k for k, _ in x.kwargs}
+                        cands = [c for c in sem if ks <= fields_of[c]]
+                        if len(cands) == 1:
+                            site = (cands[0], tuple(sorted(ks)), dict(x.kwargs), call_recv(x), 'but')
+                    elif isinstance(x, New) and x.cls in sem:
+                        vals = {k: v for k, v in x.fields if k not in ('metadata', 'data_type')}
+                        site = (x.cls, tuple(sorted(vals)), vals, None, 'new')
+                    if site is None:
+                        continue
+                    cls, ks, vals, recv, how = site
+                    key = f'{fi.qualname}:{cls}.{how}({",".join(ks)})'
+                    reads = set(sem[cls]['reads'])
+                    touched = sorted(set(ks) & reads)
+                    if (key, repr(vals)) in seen_keys:
+                        continue
+                    seen_keys.add((key, repr(vals)))
+                    n += 1
+                    if not touched:
+                        r.ok(f'{key}: changed fields disjoint from what the {cls} validators read {sorted(reads)}')
+                        continue
+                    why = _justify(cls, vals, recv, how, sh, comps, touched)
+                    if why:
+                        r.ok(f'{key}: {why}')
+                    else:
+                        r.fail(key, f'{fi.qualname} {"copies" if how == "but" else "builds"} a {cls} changing {touched}, which its {sem[cls]["errors"]} validators read, and no monotonicity fact shows the validators still pass: a valid input can make the rewrite raise', f'{mod.relpath}:{o.lineno}')
+    r.counts['semantic classes'] = len(sem)
+    r.floor('copy / construction sites', n, 8)
+    return r
+
+
+def _justify(cls, vals, recv, how, sh, comps, touched) -> Optional[str]:
+    from .rules_rewrite import canon, IH_FUNCS, _fname
+    from .terms import Attr, Call, Comp, New, Sym, walk, EnumMember
+    from .util import call_name, call_recv
+
+    def from_simple_events(v, field) -> bool:
+        """v is an element of <recv>.<field>.simple_events()"""
+        if not (isinstance(v, Sym) and v.name.startswith('each:')):
+            return False
+        tgt = v.name[5:]
+        for c in comps:
+            for t, it, ifs in c.gens:
+                if t == tgt and isinstance(it, Call) and call_name(it) == 'simple_events' and isinstance(call_recv(it), Attr) and call_recv(it).name == field and (recv is None or call_recv(it).base == recv) and not ifs:
+                    return True
+        return False
+    if cls in ('HplScope', 'HplPattern') and how == 'but':
+        if all(from_simple_events(vals[f], f) for f in touched):
+            return f'{touched} := an alternative of the same field (simple_events()): present before, present after; kind unchanged'
+        return None
+    if cls == 'HplQuantifier' and how == 'new':
+        var, dom, body = vals.get('variable'), vals.get('domain'), vals.get('condition')
+        q = None
+        if isinstance(var, Attr) and canon(var).name == 'variable':
+            q = canon(var).base
+        if q is None or canon(dom) != Attr(q, 'domain'):
+            return None
+        # the body must be (a part of / the negation of / a helper image of) the validated body of q, and mention the variable
+        def rooted(t) -> bool:
+            t = canon(t)
+            if isinstance(t, New) and t.cls == 'HplUnaryOperator':
+                return rooted(t.get('operand'))
+            if _fname(t) in IH_FUNCS and t.args:
+                return rooted(t.args[0])
+            while isinstance(t, Attr):
+                if t == Attr(q, 'condition'):
+                    return True
+                t = t.base
+                if _fname(t) in IH_FUNCS and t.args:
+                    t = canon(t.args[0])
+            return t == Attr(q, 'condition')
+        if not rooted(body):
+            return None
+        uses = False
+        b = canon(body)
+        for (a, v), pol in sh.dep.items():
+            if pol and v == canon(var) and (a == b or (isinstance(b, New) and b.cls == 'HplUnaryOperator' and canon(b.get('operand')) == a) or any(y == a for y in walk(b))):
+                uses = True
+            if pol and v == canon(var) and isinstance(a, New) and a == body:
+                uses = True
+        if uses:
+            return 'same variable and domain as the validated quantifier, body is part of its body and contains_reference(variable) holds on this path'
+        return None
+    return None
+
+
+RULES['X3c'] = X3c
